@@ -98,7 +98,23 @@ def run(ctx):
     for cls in ("Hex", "HexDump"):
         fi, paths = own_method_paths(ctx, cls, "_encode")
         ctx.ob("C02.R1", fi, len(paths) == 1 and paths[0].retval == OBJ, "%s._encode is the identity" % cls, key="%s encode" % cls)
-    ctx.floor("C02.R1", 10)
+    # Slicing / Indexing: build puts the object back exactly where parse took it from
+    for cls in ("Slicing", "Indexing"):
+        fd, pd = own_method_paths(ctx, cls, "_decode")
+        fe, pe = own_method_paths(ctx, cls, "_encode")
+        dk = pd[0].retval[2] if len(pd) == 1 and pd[0].retval is not None and pd[0].retval[0] == "sub" and pd[0].retval[1] == OBJ else None
+        ok = dk is not None
+        nst = 0
+        for p in pe:
+            if not p.returns or p.retval == OBJ:
+                continue
+            st = [e for e in p.events if e.kind == "STORE"]
+            known = {c[2]: N.NONE for c in p.guards() if c[0] == "cmp" and c[1] == "is" and c[3] == N.NONE}
+            want = N.subst(dk, known) if dk is not None else None
+            nst += 1
+            ok = ok and len(st) == 1 and st[0]["key"] == want and st[0]["value"] == OBJ and st[0]["base"] == p.retval and N.contains(p.retval, N.selfattr("count"))
+        ctx.ob("C02.R1", fe, ok and nst >= 1, "%s._encode stores the object under the very index/slice (start, stop, step) that _decode reads, in a list of `count` fillers" % cls, key="%s encode position" % cls)
+    ctx.floor("C02.R1", 12)
 
     # ---------------------------------------------------------------- R2
     n = 0
@@ -191,6 +207,10 @@ def run(ctx):
     from . import C04
     C04.shared_obligations(ctx, "C02.R9", {"Aligned", "Padded", "Default", "Prefixed", "FixedSized", "NullTerminated", "Select", "Enum", "FlagsEnum", "Flag", "Mapping", "Const", "Rebuild"})
     ctx.floor("C02.R9", 10)
+    # ---------------------------------------------------------------- R10 the stream helpers accept on build what they hand out on parse
+    # (exact non-negative lengths on both sides; bytes *and its subclasses*, which Hex/HexDump return)
+    from . import C06
+    C06.helper_checks(ctx, "C02.R10")
 
     ctl = control_model(
         "class Construct(object):\n    pass\nclass Subconstruct(Construct):\n    pass\n"
